@@ -157,3 +157,124 @@ fn c01_chunk_iter_small() {
     }
     kani::cover!(n == 4 && last != chunk, "chunk_iter_remainder_reachable");
 }
+
+/// Build probe used by setup.sh to warm the Kani target directory.
+#[kani::proof]
+fn build_probe() {
+    let x: u8 = kani::any();
+    assert!(x as u16 + 1 > 0);
+}
+
+fn ctx_for_counts<'a>(ch: &'a NoChan, circ: &'a Circuit) -> Context<'a, NoChan> {
+    Context::new(ch, circ, &[], Preprocessor::Untrusted, 0, 1, &[], None)
+}
+
+fn header_circuit(in0: usize, in1: usize, and_ops: usize) -> Circuit {
+    Circuit {
+        input_regs: vec![in0, in1],
+        insts: vec![],
+        max_reg_count: 0,
+        output_regs: vec![],
+        and_ops,
+    }
+}
+
+/// Batch-size lemmas over all counts < 2^40 through the real Context::new.
+#[kani::proof]
+#[kani::unwind(4)]
+fn c01_batch_sizes() {
+    let in0: usize = kani::any();
+    let in1: usize = kani::any();
+    let and_ops: usize = kani::any();
+    kani::assume(in0 < (1 << 39) && in1 < (1 << 39) && and_ops < (1 << 40));
+    let circ = header_circuit(in0, in1, and_ops);
+    let ch = NoChan;
+    let ctx = ctx_for_counts(&ch, &circ);
+    assert!(ctx.num_inputs == in0 + in1, "C01:ctx:num_inputs==sum(input_regs)");
+    assert!(ctx.num_and_ops == and_ops, "C01:ctx:num_and_ops==and_ops");
+    assert!(ctx.p_max == 2, "C01:ctx:p_max==parties");
+    let total = in0 + in1 + and_ops;
+    let rb = ctx.random_shares_batch_size();
+    let ab = ctx.and_share_batch_size();
+    // result is 0 iff the total is 0 (chunks(0) / fashare(l=0) unreachable behind the guards)
+    assert!((rb == 0) == (total == 0), "C01:random_batch:zero-iff-total-zero");
+    assert!((ab == 0) == (and_ops == 0), "C01:and_batch:zero-iff-no-ands");
+    assert!(rb <= total, "C01:random_batch:<=total");
+    assert!(ab <= and_ops, "C01:and_batch:<=and_ops");
+    assert!(rb >= if total < 1000 { total } else { 1000 }, "C01:random_batch:>=min(total,1000)");
+    assert!(ab >= if and_ops < 1000 { and_ops } else { 1000 }, "C01:and_batch:>=min(and_ops,1000)");
+    // at most 9 chunks: 9*batch >= total
+    assert!(total <= 9000 || rb * 9 >= total, "C01:random_batch:at-most-9-chunks");
+    assert!(and_ops <= 9000 || ab * 9 >= and_ops, "C01:and_batch:at-most-9-chunks");
+    // small totals are one single batch
+    assert!(total > 1000 || rb == total, "C01:random_batch:single-batch-up-to-1000");
+    assert!(and_ops > 1000 || ab == and_ops, "C01:and_batch:single-batch-up-to-1000");
+    // the share request of gen_auth_bits cannot overflow
+    let b = bucket_size(ab);
+    assert!(ab.checked_mul(b).and_then(|v| v.checked_mul(3)).is_some(), "C01:and_batch:len*b*3-no-overflow");
+    kani::cover!(ab > 1000 && ab < and_ops, "multi_batch_reachable");
+    kani::cover!(and_ops == 1001 && ab == 1000, "boundary_1001_reachable");
+}
+
+/// chunk_size_iter for the (total, chunk) pairs the engine can pass: total < 2^40 and at most
+/// 10 chunks (guaranteed by c01_batch_sizes: <= 9 full chunks + remainder).
+#[kani::proof]
+#[kani::unwind(13)]
+fn c01_chunk_iter_wide() {
+    let total: usize = kani::any();
+    let chunk: usize = kani::any();
+    kani::assume(total < (1 << 40));
+    kani::assume(chunk > 0 && total / chunk <= 10);
+    let mut n = 0usize;
+    let mut sum = 0usize;
+    let mut last = 0usize;
+    let mut all_but_last_full = true;
+    let mut in_range = true;
+    for s in chunk_size_iter(total, chunk) {
+        if n > 0 {
+            all_but_last_full &= last == chunk;
+        }
+        in_range &= s >= 1 && s <= chunk;
+        sum += s;
+        last = s;
+        n += 1;
+    }
+    assert!(sum == total, "C01:chunk_iter:sum==total");
+    assert!(in_range, "C01:chunk_iter:sizes-in-1..=chunk");
+    assert!(all_but_last_full, "C01:chunk_iter:all-but-last==chunk");
+    assert!(n == total.div_ceil(chunk), "C01:chunk_iter:count==ceil");
+    kani::cover!(n == 10 && last != chunk, "ten_chunks_with_remainder_reachable");
+}
+
+/// Producer/consumer agreement: the flush pattern used by init_and_shares, by the garbler's
+/// gate streaming and by the evaluator's table shares ("push; if len >= batch {flush}" ...
+/// "if !empty {flush}") emits exactly the sizes chunk_size_iter(total, batch) announces to the
+/// receiving side, for the real and_share_batch_size. The three-line flush pattern is re-stated
+/// here (it is inline in async code) - listed as an assumption; C01's segment harnesses check
+/// the real loops for small sizes.
+#[kani::proof]
+#[kani::unwind(13)]
+fn c01_flush_pattern_matches_chunk_iter() {
+    let and_ops: usize = kani::any();
+    kani::assume(and_ops < (1 << 40));
+    let circ = header_circuit(1, 1, and_ops);
+    let ch = NoChan;
+    let ctx = ctx_for_counts(&ch, &circ);
+    let batch = ctx.and_share_batch_size();
+    // abstract producer: k-th flush happens when `batch` items accumulated, remainder at the end
+    let mut it = chunk_size_iter(and_ops, batch);
+    let full = if batch == 0 { 0 } else { and_ops / batch };
+    let rem = if batch == 0 { 0 } else { and_ops % batch };
+    let mut ok = true;
+    let mut k = 0usize;
+    while k < full {
+        ok &= it.next() == Some(batch);
+        k += 1;
+    }
+    if rem != 0 {
+        ok &= it.next() == Some(rem);
+    }
+    ok &= it.next().is_none();
+    assert!(ok, "C01:flush-pattern==chunk_size_iter(and_ops, and_share_batch_size)");
+    kani::cover!(full == 9 && rem != 0, "nine_full_plus_remainder_reachable");
+}
